@@ -112,10 +112,10 @@ var plans = map[string]plan{
 		Assumptions: []string{"the from-scratch output is the reference (C08 checks that it is unique)"},
 	},
 	"C19": {
-		Quick:    tierPlan{Shards: 8, Checks: 1, Shrink: "30s", Limit: 30 * time.Minute},
-		Thorough: tierPlan{Shards: 16, Checks: 4, Shrink: "3m", Limit: 4 * time.Hour},
-		Rule: "the unmodified generated code of Fmap over a channel, the four channel forms of Join plus the variadic form with 2-4 channels of mixed direction, Pipeline and Dup, built with go1.26.8 -race and run inside testing/synctest bubbles; each case is a configuration (form, 0-4 input channels, 0-3 items each (thorough 0-5), capacities 0-2, optional prefill of buffered inputs) together with a schedule of the external actors: every send, close, hand-over of an inner channel and receive is preceded by a drawn virtual-time delay, so the order of external steps is a drawn total order with ties left to the runtime (GOMAXPROCS 1/2/4/16 per shard); judged: multiset of received items = items sent (per output for Dup), per-input order, f called once per item in order, every output observed closed exactly once and empty afterwards, no deadlock before completion and no goroutine left in the bubble (synctest's durable-blocking detection, not timeouts), no unrecovered panic, no race report; non-trivial = >= 2 channels carrying items or >= 2 items; distinct by configuration+schedule",
-		Assumptions: []string{"interleavings of the helpers' internal goroutines between two external steps are chosen by the Go runtime, not enumerated (see DESIGN.md section 9)", "testing/synctest's definition of durably blocked"},
+		Quick:    tierPlan{Shards: 16, Checks: 1, Shrink: "30s", Limit: 30 * time.Minute},
+		Thorough: tierPlan{Shards: 16, Checks: 4, Shrink: "3m", Limit: 5 * time.Hour},
+		Rule: "two engines over the generated code of Fmap over a channel, the four channel forms of Join plus the variadic form (2-4 channels, mixed direction), Pipeline and Dup. (a) real runtime: the unmodified code, go1.26.8 -race, inside testing/synctest bubbles; a case is a configuration (form, 0-4 inputs, 0-3 items each (thorough 0-5), capacities 0-2, optional prefill) plus a schedule of the external actors: every send, close, hand-over and receive is preceded by a drawn virtual-time delay, which fixes the order of external steps (ties left to the runtime, GOMAXPROCS 1/2/4/16). (b) model scheduler: the generated file is rewritten (chan/go/select/range/close/sync.WaitGroup -> subjectlib/sched; the rewriter declines anything else) and every synchronisation operation becomes a choice point of a cooperative scheduler; for every tiny configuration (<= 2-3 inputs, <= 2-3 items, capacities 0-2) all schedules are enumerated depth-first up to a per-configuration bound (quick 1 500, thorough 150 000 schedules; configurations finished below the bound are counted as exhaustive), then random schedules of deeper configurations are drawn with rapid. Judged in both: multiset of received items = items sent (per output for Dup), per-input order, f once per item, outputs closed exactly once and only after all inputs, no send on / close of a closed channel, no WaitGroup misuse, no deadlock before completion, nothing left blocked at the end (synctest's durable blocking resp. 'no enabled transition'), and in (a) no race report; one evaluation = one executed schedule; non-trivial = >= 2 channels carrying items or >= 2 items; distinct by configuration+schedule",
+		Assumptions: []string{"(a) interleavings of internal goroutines between external steps are the runtime's; (b) the model has Go's channel semantics at synchronisation-operation granularity (differentially tested against real channels in setup) and is faithful only for data-race-free code, which (a) checks dynamically"},
 	},
 	"C20": {
 		Quick:    tierPlan{Shards: 8, Checks: 1, Shrink: "30s", Limit: 30 * time.Minute},
